@@ -116,6 +116,20 @@ def check_float_case(fb, rec, rnd, rep, stats, N):
             rep.violation('raises:' + key, dict(case=key), 'fd_derivative raised %r' % (ex,))
             continue
         stats['float_calls'] += 1
+        # the same data handed over as non-contiguous views (a column of a table, every second sample, a reversed view of the reversed data)
+        for vname, mk in (('column', lambda a: np.column_stack([a, a[::-1] * 0.5 + 1.0])[:, 0]), ('strided', lambda a: np.repeat(a, 2)[::2]),
+                          ('reversed-view', lambda a: np.ascontiguousarray(a[::-1])[::-1])):
+            try:
+                dv = fb.fd_derivative(mk(fx), mk(x), n, m)
+            except Exception as ex:
+                rep.violation('raises:view:' + vname, dict(case=key), 'fd_derivative raised %r on %s views of its inputs' % (ex, vname))
+                continue
+            stats['float_calls'] += 1
+            if not (np.shape(dv) == np.shape(du) and np.array_equal(np.asarray(dv), np.asarray(du), equal_nan=True)):
+                j = int(np.argmax(np.asarray(dv) != np.asarray(du))) if np.shape(dv) == np.shape(du) else -1
+                rep.violation('view:' + vname, dict(case=key, i=j, got=float(np.ravel(dv)[j]) if j >= 0 else None, contiguous=float(np.ravel(du)[j]) if j >= 0 else None),
+                              '%s: fd_derivative on %s views of the same data gives %r at index %d, on contiguous arrays %r' % (key, vname, np.ravel(dv)[j] if j >= 0 else None, j, np.ravel(du)[j] if j >= 0 else None))
+                break
         if len(HELD) < 300:
             HELD.append((key, du, np.array(du, copy=True)))     # results are values: kept ones never change
         mm = n // 2 + m
